@@ -1298,6 +1298,26 @@ theorem sendPush_end_to_end {K : Comb κ α β} {k0 : κ} {ports : List Nat} {sp
   rw [hs] at this
   exact this
 
+/-! ## ResolveFutures, non-blocking mode (`subgraph_waker = Some`): the contract clause that fails (F124) -/
+
+/-- The full statement for the non-blocking mode — not a theorem of the code that exists. -/
+def ResolveNonblockingStatement : Prop :=
+  ∀ (ordered : Bool) (q0 : List (QEntry Nat)), (resolveC (β := Nat) ordered true).Sound q0 [0] (fun _ _ _ => True)
+
+/-- Witness: `ready`, `send (future pending 3 polls, value 5)`, `finalize → Done`, then two more
+    `finalize` polls (what `Fanout` does to a finished branch): the caller honours the contract, the
+    downstream gets `send 5` after its `finalize? true`. -/
+theorem resolveNonblocking_sendAfterDone_refuted : ¬ ResolveNonblockingStatement := by
+  intro h
+  have ht := (resolveC (β := Nat) true true).run_tr leaf [] (⟨[], [], []⟩ : Leaf Nat)
+    [.rdy, .snd (3, 5), .fin, .fin, .fin]
+  have hup : ProtoOk ((resolveC (β := Nat) true true).run leaf [] (⟨[], [], []⟩ : Leaf Nat)
+      [.rdy, .snd (3, 5), .fin, .fin, .fin]).up := by unfold ProtoOk; decide
+  have := (h true [] _ _ _ ht hup).1 0
+  revert this
+  unfold ProtoOk
+  decide
+
 /-! ## Pipelines -/
 
 /-- **Pipelines follow by induction**: `K1` pushing into `K2` (`Comb.comp`: every downstream call
